@@ -456,10 +456,16 @@ func (h *Headers) ensureSigningAlgorithm(alg Algorithm, external []byte) error {
 		if h.RawProtected != nil {
 			return ErrAlgorithmNotFound
 		}
-		if h.Protected == nil {
-			h.Protected = make(ProtectedHeader)
+		// The algorithm goes into a map of this layer's own: the caller may have
+		// put one map object into several layers (say, the body and a signer of
+		// a COSE_Sign), and the bytes of another layer that have already been
+		// signed must not change under it.
+		protected := make(ProtectedHeader, len(h.Protected)+1)
+		for label, value := range h.Protected {
+			protected[label] = value
 		}
-		h.Protected.SetAlgorithm(alg)
+		protected.SetAlgorithm(alg)
+		h.Protected = protected
 		return nil
 	}
 	return err
